@@ -684,3 +684,24 @@ package locate
 //@   at call(switchNextTiKVPeer) assert nohint: leader == nil && arg1 == currentPeerIdx
 //@   at call(switchWorkLeaderToPeer) assert hint: leader != nil && arg0 == leader
 //@   at call(invalidate) assert unknown: arg0 == StoreNotFound
+
+// Forgetting one cached version of a region: the entry of exactly that version goes, and the record of the region's latest
+// known version is dropped only when it IS that version - evicting an older description must not erase what the cache knows
+// about the newest one (a stale answer from PD could then be installed over it).
+//@ func (*regionIndexMu) removeVersionFromCache
+//@   prop C09
+//@   typeinv mu.regions != nil && mu.latestVersions != nil
+//@   inline-callee Equals
+//@   ensures gone: !inDom(mu.regions, oldVer)
+//@   ensures newer: old(inDom(mu.latestVersions, regionID)) && (old(mu.latestVersions[regionID]).id != oldVer.id || old(mu.latestVersions[regionID]).ver != oldVer.ver || old(mu.latestVersions[regionID]).confVer != oldVer.confVer) ==>
+//@       inDom(mu.latestVersions, regionID) && mu.latestVersions[regionID] == old(mu.latestVersions[regionID])
+//@   ensures others: forall id uint64 :: id != regionID ==> (inDom(mu.latestVersions, id) <==> old(inDom(mu.latestVersions, id)))
+
+// The completion of the asynchronous first attempt counts as one send whatever its outcome - an attempt that ended with a
+// transport error was sent too, so the synchronous re-sends that follow carry the retry marker (sendReqState.next sets it
+// from the count).
+//@ func (*RegionRequestSender) SendReqAsync$3
+//@   prop C10
+//@   may-panic
+//@   opaque-callee Value handleAsyncResponse Go Executor Err Cause
+//@   at call(handleAsyncResponse) assert counted: state.vars.sendTimes == old(state.vars.sendTimes) + 1
